@@ -2,6 +2,7 @@
   C13 — Bigtable: ReadModifyWriteRow increments and appends against the latest cell.
 -/
 import Emu.Proofs.Rmw
+import Emu.Proofs.LeafTie.MaxTimestamp
 
 namespace Emu.Props.C13
 open Emu Emu.Bt Emu.Proofs.BtRow Emu.Proofs.BtInv Emu.Proofs.BtRows Emu.Proofs.Rmw
@@ -128,5 +129,13 @@ example :
     let sch : Schema := [([102], none)]
     (applyRmwRules sch 5000 ⟨[97], []⟩ ⟨[97], []⟩
       [.increment [102] [113] 5, .append [102] [113] [1], .increment [102] [113] 1]).isNone = true := by decide
+
+/-! ### Tie T1: the repository's own text of the timestamp choice
+
+`Emu.Generated.Leaf.maxTimestamp` is regenerated from `maxTimestamp` (inmem.go) by the leaf
+translator on every run; `applyRmwRule` stamps the new cell with `max (truncMs now) prev.ts`. -/
+
+theorem source_maxTimestamp_is_max (x y : Int) : Emu.Generated.Leaf.maxTimestamp x y = max x y :=
+  Emu.Proofs.LeafTie.maxTimestamp_tie x y
 
 end Emu.Props.C13
